@@ -174,6 +174,8 @@ def check_compositions(ctx, items, quoted):
                     f = format_string(parts)
                     t.write(i, 0, datetime(*dj))
                     if quoted == "custom" or quoted is True:
+                        if i == len(items) // 2:
+                            _ = t.cell(0, 0).formatted_value   # a display between two batches of custom formats
                         cf = doc.add_custom_format(name=f"c{i}", type="datetime", format=f)
                         t.set_cell_formatting(i, 0, "custom", format=cf)
                     else:  # the public route, with its validation of the directives (quoted text included when quoted == "public")
